@@ -33,3 +33,65 @@ def live_templates_equal_ref() -> bool:
     ref = extrapolate_ref.pattern_replace_ref(
         extrapolate_ref.extrapolate_ref(dict(raw.sid_templates), list(raw.to_extrapolate)), raw.key_patterns)
     return list(ref.items()) == list(conf.sid_templates.items()) or fail("templates-differ")
+
+
+def mapping_roundtrip(config: str, key: str, value: str) -> bool:
+    """A Sid value of a mapped key must survive Sid -> path value -> Sid value."""
+    from spil.sid.pathops.pathconfig import get_path_config
+    from spil.util import utils
+
+    pc = get_path_config(config)
+    mp = pc.path_mapping.get(key)
+    fwd = utils.get_key(mp, value, value)
+    back = mp.get(fwd, fwd)
+    if back != value:
+        return fail("mapping-not-one-to-one")
+    import re
+    from tplz3.c05z import tokens
+    exprs = {e for T, tpl in pc.path_templates.items() for (k, kk, e) in tokens(tpl) if k == "ph" and kk == key}
+    if not any(re.fullmatch(e, fwd) for e in exprs):
+        return fail("mapped-value-rejected-by-path-pattern")
+    return True
+
+
+def path_has_single_owner(config: str, path: str, a: str, b: str) -> bool:
+    from spil.sid.pathops import fs_resolver
+
+    ta, da = fs_resolver.path_to_dict.__wrapped__(path, a, config) if hasattr(fs_resolver.path_to_dict, "__wrapped__") else fs_resolver.path_to_dict(path, a, config)
+    tb, db = fs_resolver.path_to_dict.__wrapped__(path, b, config) if hasattr(fs_resolver.path_to_dict, "__wrapped__") else fs_resolver.path_to_dict(path, b, config)
+    if da and db:
+        return fail("path-conforms-to-two-templates")
+    return True
+
+
+def path_single_config(path: str, a: str, b: str) -> bool:
+    from spil import Sid
+
+    if Sid(path=path, config=a) and Sid(path=path, config=b):
+        return fail("path-resolves-under-two-configurations")
+    return True
+
+
+def configs_differ_only_by_root(first: str = "") -> bool:
+    from spil import conf
+    from spil.sid.pathops.pathconfig import get_path_config
+
+    names = list(conf.path_configs.keys())
+    if first:
+        get_path_config(first)          # this configuration is loaded first
+    ta = get_path_config(names[0]).path_templates
+    tb = get_path_config(names[1]).path_templates
+    if list(ta) != list(tb):
+        return fail("template-names-differ")
+    import os
+    ra = os.path.commonprefix(list(ta.values()))
+    rb = os.path.commonprefix(list(tb.values()))
+    ra, rb = ra.split("{")[0], rb.split("{")[0]
+    for k in ta:
+        if ta[k][len(ra):] != tb[k][len(rb):]:
+            return fail("tails-differ")
+    return ra != rb or fail("same-root")
+
+
+def always_false(why: str = "") -> bool:
+    return fail(why or "z-finding")
